@@ -100,6 +100,31 @@ def scenario_traces(prop, scratch, seed, tl, dr):
     return info
 
 
+def proof(scratch):
+    """C01 at the level of the specification for every N and MaxVer: tlapm re-checks spec/proofs/MachineProof.tla (the
+    conjunction of StagingSigsSound and CurrentSigned is an inductive invariant of Machine!Spec).  The proof depends on the
+    specification only, never on /repo: its outcome is evidence and has no influence on the verdict."""
+    import re
+    import shutil
+    d = os.path.join(scratch, "proof")
+    os.makedirs(d, exist_ok=True)
+    try:
+        shutil.copy(os.path.join(vlib.VERIF, "spec", "Machine.tla"), d)
+        shutil.copy(os.path.join(vlib.VERIF, "spec", "proofs", "MachineProof.tla"), d)
+        p = subprocess.run(["tlapm", "--threads", "8", "MachineProof.tla"], cwd=d, text=True, timeout=600,
+                           stdout=subprocess.PIPE, stderr=subprocess.STDOUT)
+        m = re.search(r"All (\d+) obligations proved", p.stdout)
+        if m:
+            return dict(theorem="Machine!Spec => [](CurrentSigned /\\ StagingSigsSound), N, MaxVer arbitrary", prover="tlapm (TLAPS)",
+                        obligations=int(m.group(1)), proved=True)
+        m = re.search(r"(\d+)/(\d+) obligations failed", p.stdout)
+        return dict(proved=False, detail=m.group(0) if m else p.stdout[-300:])
+    except Exception as e:  # tool missing, time-out
+        return dict(proved=False, detail=repr(e))
+    finally:
+        shutil.rmtree(d, ignore_errors=True)
+
+
 def run(prop, tier, seed, scratch, t0):
     binary = vlib.build_harness(scratch)
     cfgs, denv = configs(tier)
@@ -154,7 +179,7 @@ def run(prop, tier, seed, scratch, t0):
         states=sum(r["distinct"] for r in tl), transitions=counts.get("graph_edges", 0),
         traces_validated_against_impl=counts.get("walks", 0) + counts.get("gseq_sequences", 0) + counts.get("graph_states", 0),
         samples=samples, evaluations=counts.get("steps", 0), distinct_nontrivial=nontriv, rule=rule + scen_rule,
-        exhaustive=True, recorded_scenario_traces=scen,
+        exhaustive=True, recorded_scenario_traces=scen, specification_proof=proof(scratch) if prop == "C01" else None,
         tlc=[dict(config=r["cmd"].split("-config ")[1].split()[0], generated=r["generated"], distinct=r["distinct"],
                   depth=r["depth"], wall_s=round(r["wall"], 1)) for r in tl],
         configurations=["N=%d Me=%d MaxVer=%d" % c for c in cfgs],
